@@ -22,7 +22,7 @@ for pid in sorted(by):
     out.append(f"| {pid} | {k} / {n} | {', '.join(sorted(names))} |")
 out.append("")
 out.append("### 8.2 Seeded changes written by independent sub-agents (`seeded/<name>/`)\n")
-out.append("Each sub-agent saw only the property text and a scratch worktree (nothing from `/verif`) and delivered a patch, a demonstration that passes without and fails with the patch, and the repository suite still at 69 passed. Every one was confirmed with `tools/seedcheck.py` (clean demo, patch applies, suite, patched demo, then the checks through `VERIF_REPO_SRC`). Round 2 asked for a different mechanism and clause than round 1.\n")
+out.append("Each sub-agent saw only the property text and a scratch worktree (nothing from `/verif`) and delivered a patch, a demonstration that passes without and fails with the patch, and the repository suite still at 69 passed. Every one was confirmed with `tools/seedcheck.py` (clean demo, patch applies, suite, patched demo, then the checks through `VERIF_REPO_SRC`). Round 2 asked for a different mechanism and clause than round 1; round 3 (names ending in `c`) steered each agent to clauses and trigger genres not used before.\n")
 out.append("| seeded change | what it needs to manifest | caught by (quick tier) | caught as first written? |")
 out.append("|---|---|---|---|")
 for f in sorted(glob.glob(os.path.join(HERE, "seeded", "*", "meta.json"))):
@@ -32,6 +32,21 @@ for f in sorted(glob.glob(os.path.join(HERE, "seeded", "*", "meta.json"))):
     needs = re.sub(r"\s+", " ", m["needs"])[:170]
     out.append(f"| `{os.path.basename(os.path.dirname(f))}`: {re.sub(chr(10), ' ', m['summary'])[:150]} | {needs} | {caught} | {c['caught_by_checks_as_first_written']}: {c['note'][:260]} |")
 out.append("")
+ben = sorted(glob.glob(os.path.join(HERE, "benign", "*", "meta.json")))
+if ben:
+    out.append("### 8.3 Property-preserving changes written by independent sub-agents (`benign/<name>/`): negative controls\n")
+    out.append("Each sub-agent saw only the property text and a scratch worktree and was asked for two realistic changes that alter *how* the anchored code computes its results (another exact solver, `np.interp` for `interp1d`, Horner forms, re-associated arithmetic, hand-written quadrature, correct caching, input coercion, new exception subclasses, extra keywords) while every clause of the property stays true; `tools/benigncheck.py` applies each to a scratch worktree and runs the quick checks of every property anchored in the touched files through `VERIF_REPO_SRC`. **Every check must exit 0**; an alarm here is a false alarm of the harness (or a change that is not property-preserving after all) and is analysed in section 6.3.\n")
+    out.append("| change | what it does | checks run (all quiet unless noted) |")
+    out.append("|---|---|---|")
+    for f in ben:
+        m = json.load(open(f))
+        d = m["description"]
+        summ = d.get("summary", "") if isinstance(d, dict) else str(d)
+        num = d.get("what_changes_numerically", "") if isinstance(d, dict) else ""
+        checks = ", ".join(m["ran"].get("checks", {}).keys())
+        al = m.get("alarms") or []
+        out.append(f"| `{os.path.basename(os.path.dirname(f))}` | {re.sub(r'\s+', ' ', summ)[:260]} *({re.sub(r'\s+', ' ', str(num))[:160]})* | {checks}{' - **alarm: ' + ', '.join(al) + '**' if al else ''} |")
+    out.append("")
 text = "\n".join(out) + "\n"
 p = os.path.join(HERE, "DESIGN.md")
 s = open(p).read()
